@@ -434,7 +434,7 @@ func c20Gate(r *Run) {
 		var failNext atomic.Bool
 		conn.failWrite = func(n int, b []byte, addr net.Addr) error {
 			if failNext.Swap(false) {
-				return errors.New("injected write failure")
+				return injectedWriteErr(n)
 			}
 			return nil
 		}
@@ -543,7 +543,7 @@ func c20Gate(r *Run) {
 			conn.failWrite = func(n int, b []byte, addr net.Addr) error {
 				if addr.String() == dst.String() {
 					if int(sends.Add(1)) == failAt {
-						return errors.New("injected write failure")
+						return injectedWriteErr(n)
 					}
 				}
 				return nil
@@ -717,7 +717,7 @@ func c20Flood(r *Run, sc c20Scenario) {
 		conn.failWrite = func(n int, b []byte, addr net.Addr) error {
 			if n%sc.failEvery == 0 {
 				failures.Add(1)
-				return errors.New("injected write failure")
+				return injectedWriteErr(n)
 			}
 			return nil
 		}
